@@ -379,6 +379,59 @@ def run_c18(case, ctx):
     return out
 
 
+# --------------------------------------------------------------------------
+# ObjectFactory (property C18's anchors: environment wiring and default-property factory)
+
+def fact_value(key, v):
+    """token(s) of a factory case -> Python value; external references are written as source names"""
+    if v is None:
+        return None
+    if key == "external_references":
+        mk = lambda n: {"source_name": n, "external_id": "x"}  # noqa: E731
+        return [mk(n) for n in v] if isinstance(v, list) else mk(v)
+    return list(v) if isinstance(v, list) else v
+
+
+def fact_seen(o, key):
+    v = o.get(key)
+    if v is None:
+        return "-"
+    if key in ("created", "modified"):
+        return "=" + storeutil.ts_text(storeutil.dt_to_us(v), "ms")
+    if key == "external_references":
+        return [e["source_name"] for e in v]
+    if key == "object_marking_refs":
+        return [str(x) for x in v]
+    return "=" + str(v)
+
+
+FACT_KEYS = ["created_by_ref", "created", "modified", "external_references", "object_marking_refs"]
+FACT_SETTERS = ["set_default_creator", "set_default_created", "set_default_external_refs", "set_default_object_marking_refs"]
+FACT_INIT = {"created_by_ref": "created_by_ref", "created": "created", "external_references": "external_references",
+             "object_marking_refs": "object_marking_refs"}
+
+
+def run_factory(case):
+    init = {k: fact_value(k, v) for k, v in case["init"].items()}
+    cls = CLASSES[case["cls"]]
+    if case.get("via") == "env":
+        target = stix2.Environment(factory=stix2.ObjectFactory(list_append=case["list_append"], **init))
+    else:
+        target = stix2.ObjectFactory(list_append=case["list_append"], **init)
+    for n, v in case["setters"]:
+        key = ["created_by_ref", "created", "external_references", "object_marking_refs"][n]
+        getattr(target, FACT_SETTERS[n])(fact_value(key, v))
+    out = []
+    for kw in case["calls"]:
+        args = {k: fact_value(k, v) for k, v in kw.items()}
+        try:
+            o = target.create(cls, **args)
+            out.append([fact_seen(o, k) for k in FACT_KEYS])
+        except Exception as e:  # noqa: BLE001
+            out.append("!" + type(e).__name__)
+    return out
+
+
 def main():
     ctx = Ctx()
     try:
@@ -393,6 +446,8 @@ def main():
                     res = {"naive_kept": o["modified"].tzinfo is None}
                 elif case["kind"] == "c11":
                     res = run_c11(case, ctx)
+                elif case["kind"] == "factory":
+                    res = run_factory(case)
                 else:
                     res = run_c18(case, ctx)
             except Exception as e:  # noqa: BLE001
